@@ -220,6 +220,11 @@ def find(
                     lang = state.langs[state._get_realpath(e["file"])]
                     state.insert_file(include_file, lang)
                     state.associate(include_file, file_platform)
+                else:
+                    log.warning(
+                        f"{e['file']}: user include '{include}' not found "
+                        + "(-include)",
+                    )
 
             # Process the file, to build a list of associate nodes
             state.associate(e["file"], file_platform)
